@@ -179,14 +179,6 @@ Section Sem.
 End Sem.
 
 (** ** what [fed_ok0] and [plain_ok] say, as propositions *)
-Lemma union_members_in : forall g u ms, union_members g u = Some ms -> In (u, ms) (g_unions g).
-Proof.
-  intros g u ms Hu. unfold union_members in Hu. induction (g_unions g) as [|[k v] t IH]; simpl in Hu; [discriminate|].
-  destruct (String.eqb u k) eqn:E.
-  - inversion Hu; subst. apply String.eqb_eq in E. subst. left; reflexivity.
-  - right. apply IH; exact Hu.
-Qed.
-
 Section FromBool0.
   Variable g : gschema.
   Hypothesis Hok : fed_ok0 g = true.
@@ -227,34 +219,3 @@ Proof.
     exfalso. apply P5. apply existsb_eqb_In; exact E.
 Qed.
 
-Section FromPlain.
-  Variable g : gschema.
-  Hypothesis Hpl : plain_ok g = true.
-
-  Lemma plain_fields : forall f rty owners, find_gfield g "Leaf" f = Some (rty, owners) ->
-    rty = RScalar /\ selector_of g "Leaf" f = None.
-  Proof.
-    intros f rty owners E. unfold plain_ok in Hpl. apply andb_prop in Hpl as [H _]. apply andb_prop in H as [H _].
-    apply find_gfield_in in E. eapply forallb_forall in H; [|exact E]. cbv beta iota zeta in H.
-    unfold is_leaf in H. rewrite String.eqb_refl in H. simpl in H. apply andb_prop in H as [H1 H2].
-    split; [destruct rty; try discriminate; reflexivity | destruct (selector_of g "Leaf" f); [discriminate | reflexivity]].
-  Qed.
-
-  Lemma plain_served : forall ty f owners svc, find_gfield g ty f = Some (RObj "Leaf", owners) -> In svc owners ->
-    forall f' rty' owners', find_gfield g "Leaf" f' = Some (rty', owners') -> In svc owners'.
-  Proof.
-    intros ty f owners svc E Hs f' rty' owners' E'. unfold plain_ok in Hpl. apply andb_prop in Hpl as [H _]. apply andb_prop in H as [_ H].
-    apply find_gfield_in in E. eapply forallb_forall in H; [|exact E]. cbv beta iota zeta in H.
-    unfold is_leaf in H. rewrite String.eqb_refl in H. simpl in H. eapply forallb_forall in H; [|exact Hs].
-    unfold serves_leaf in H. apply find_gfield_in in E'. eapply forallb_forall in H; [|exact E']. cbv beta iota zeta in H.
-    unfold is_leaf in H. rewrite String.eqb_refl in H. simpl in H. apply existsb_eqb_In; exact H.
-  Qed.
-
-  Lemma plain_not_member : forall u ms, union_members g u = Some ms -> ~ In "Leaf" ms.
-  Proof.
-    intros u ms Hu. unfold plain_ok in Hpl. apply andb_prop in Hpl as [_ H].
-    apply union_members_in in Hu. eapply forallb_forall in H; [|exact Hu]. change (snd (u, ms)) with ms in H.
-    apply negb_true_iff in H. intros Hq.
-    assert (existsb is_leaf ms = true) by (apply existsb_exists; exists "Leaf"; split; [exact Hq | reflexivity]). congruence.
-  Qed.
-End FromPlain.
